@@ -47,6 +47,15 @@ def decode_path(ctx, repo, cname, fname, reset_required):
         ctx.ob("R1", f"{key}::per-message-reset", ok,
                f"{fi.qual}: self.changes is not reset before the records of each STATP message are decoded: changes of an earlier message are replayed with every later one",
                fi.loc, sample={"rule": "R1", "function": fi.qual, "reset_lines": [r.lineno for r in resets], "append_line": A.lineno})
+        # ... and on EVERY normal path through the STATP branch (an early return before the
+        # reset leaves the previous message's list in place for the apply callback)
+        tests = [t for t in g.stmt_nodes() if t.kind == "test" and "startswith(STATQ_VERB)" in t.text()]
+        if len(tests) == 1 and resets:
+            fs = [m for m, l in g.succ[tests[0]] if l == "F"]
+            skipped = bool(fs) and fs[0] not in resets and g.exit in g.reach_from(fs[0], avoid=resets, labels_skip=("exc",))
+            ctx.ob("R1", f"{key}::reset-on-every-STATP-path", not skipped,
+                   f"{fi.qual}: a STATP message can be handled without resetting self.changes (a path from the STATP branch to the end avoids the reset): "
+                   f"the apply callback then replays the previous message's changes", fi.loc)
         if resets and loop is not None:
             for r in resets:
                 ctx.ob("R1", f"{key}::reset-not-after-decode", not (loop in g.reach_to(r) and g.dom(loop, r)),
